@@ -41,3 +41,40 @@ func TestVerifWitness_C11_cache_hit_drops_nested(t *testing.T) {
 	}
 	fmt.Println("WITNESS-HOLDS")
 }
+
+// C10 include.(*Loader).loadParsed#ensures.depth_is_nesting: the depth limit bounds the nesting depth, not the number of files.
+func TestVerifWitness_C10_flat_list_is_not_deep(t *testing.T) {
+	dir := t.TempDir()
+	w := func(name, body string) { os.WriteFile(filepath.Join(dir, name), []byte(body), 0o644) }
+	root := ""
+	for i := 0; i < 60; i++ {
+		n := fmt.Sprintf("m%02d.journal", i)
+		w(n, "")
+		root += "include " + n + "\n"
+	}
+	w("main.journal", root)
+	r, errs := NewLoader().Load(filepath.Join(dir, "main.journal"))
+	if len(errs) != 0 || r == nil || len(r.FileOrder) != 60 {
+		fmt.Printf("WITNESS-FAILS a flat list of 60 includes (default depth limit 50): %d files, %d errors\n", len(r.FileOrder), len(errs))
+		return
+	}
+	fmt.Println("WITNESS-HOLDS")
+}
+
+// C10 include.onDirective#ensures.too_deep_on_directive: a too-deep include is reported on the directive that names it.
+func TestVerifWitness_C10_too_deep_on_directive(t *testing.T) {
+	dir := t.TempDir()
+	w := func(name, body string) { os.WriteFile(filepath.Join(dir, name), []byte(body), 0o644) }
+	w("a.journal", "; first line\ninclude b.journal\n")
+	w("b.journal", "")
+	l := NewLoader()
+	l.SetLimits(Limits{MaxFileSizeBytes: 1 << 20, MaxIncludeDepth: 1})
+	_, errs := l.Load(filepath.Join(dir, "a.journal"))
+	for _, e := range errs {
+		if e.Kind == ErrorCycleDetected && e.Range.Start.Line != 2 {
+			fmt.Printf("WITNESS-FAILS depth limit 1, a includes b on line 2: error reported at line %d\n", e.Range.Start.Line)
+			return
+		}
+	}
+	fmt.Println("WITNESS-HOLDS")
+}
